@@ -12,6 +12,9 @@
    * two semantics: [run] on the whole process (global generator + an arbitrary interleaved
      environment [env] acting on the global generator before every step) and [run_local], which has NO
      global generator in its signature and is undefined on a global draw;
+   * an exception (junk / out-of-range random_state, a draw on an unset rng) is a sticky FLAG ([failed]), not an abort:
+     the semantics keeps executing the rest of the skeleton.  This is conservative for every theorem (more draws are
+     considered than the implementation performs) and the correspondence ignores the draw bits of failed calls;
    * the static analysis [gf] / [global_free];
    * the draw skeletons of the seed-accepting entry points of /repo/tensorly (section Skeletons). *)
 From Coq Require Import List Arith ZArith Bool.
@@ -558,8 +561,15 @@ Definition sk_parafac2 (o : opts) : skel :=
                   | ISvd => Seq (Call ARaw (sk_svd_interface (o_svd o) false 0)) (Call ARaw (sk_compute_projections o))
                   | IUser => Skip
                   end))
+ (Seq (match o_init o with                      (* nn_modes with the SVD initialisation: projections recomputed, random_state=rng *)
+       | ISvd => Branch 3 (Call ARng (sk_compute_projections o)) Skip
+       | _ => Skip
+       end)
       (For 1 (o_iters o) (Seq (Call ARng (sk_compute_projections o))
-                              (Call ARaw (Seq (Call ARaw (Seq Check Skip)) Skip))))).   (* parafac(init=(w,f), random_state=random_state) *)
+                         (Seq (Call ARaw (Seq (Call ARaw (Seq Check Skip)) Skip))    (* parafac(init=(w,f), random_state=random_state) *)
+                              (* line search (every other iteration after the 6th): _BroThesisLineSearch(random_state=rng).line_step
+                                 recomputes the projections with self.random_state *)
+                              (Branch 4 (Call ARng (sk_compute_projections o)) Skip)))))).
 (* before 20fd4fd: the SVDs of the initialisation and of every projection step got no random_state *)
 Definition sk_parafac2_old (o : opts) : skel :=
   Seq (match o_init o with
